@@ -70,6 +70,11 @@ def run(ctx, rep):
     rep.rule('R09.3', 'a function body resolves names in its own context, then in the global context only')
     rep.rule('R09.4', 'every identifier use goes through the symbol table; an unknown name is a ReferenceError raised during compilation')
     rep.rule('R09.5', 'declare before use: `stel` defines the name before its initialiser is compiled; a named function before its body')
+    rep.rule('R09.9', 'a declaration introduces a new variable in the current scope: `stel` and a named `functie` store into the slot that define() hands out on that path, never into a variable of the same name found by a lookup (an outer one would be overwritten)')
+    n99 = sum(1 for a in R['arms'] if str(a['trace']).startswith(('Stmt::Let', 'Expr::Function')) and any(so[0] == 'define' for so in a['symops']))
+    rep.ob(n99 >= 2, 'R09.9', 'compiler::Compiler::compile_expression', 'declaring constructs', '%d compiled forms of `stel` / named `functie` define their name' % n99, 'src/compiler.rs')
+    for v in [v for v in R['violations'] if v['oblig'] == 'R09.9']:
+        rep.bad('R09.9', 'compiler::Compiler::' + v['method'], v['construct'], v['text'], 'src/compiler.rs', key=v['kc'])
     # R09.1
     bad = [v for v in R['violations'] if v['oblig'] == 'R09.1']
     for v in bad:
